@@ -159,4 +159,4 @@ def body(case, ctx):
 
 
 def parts():
-    return [Part("programs", body, strategy=strat, quick=2500, thorough=12000)]
+    return [Part("programs", body, strategy=strat, quick=2500, thorough=12000, fuzz_quick=0, fuzz_thorough=8000)]
